@@ -671,13 +671,17 @@ def shrink_case(case, still_bad, budget=40):
     changed = True
     while changed and steps < budget:
         changed = False
-        if len(cur["turns"]) > 1:
-            cand = copy.deepcopy(cur)
-            cand["turns"] = cand["turns"][:-1]
-            steps += 1
-            if still_bad(cand):
-                cur, changed = cand, True
-                continue
+        dropped = False
+        for ti in reversed(range(len(cur["turns"]))):
+            if len(cur["turns"]) > 1 and steps < budget:
+                cand = copy.deepcopy(cur)
+                del cand["turns"][ti]
+                steps += 1
+                if still_bad(cand):
+                    cur, changed, dropped = cand, True, True
+                    break
+        if dropped:
+            continue
         for ti, t in enumerate(cur["turns"]):
             for side in ("iv", "ov"):
                 for k, v in enumerate(t[side]):
